@@ -116,6 +116,48 @@ type c18Pool struct {
 	tmpl generate.Generator
 }
 
+// what the pipelines print (DestinationLogger, RasterizerLogger) is part of
+// what they produce: it is captured in a scratch file that takes the place
+// of os.Stdout while tasks run (created once per process, unlinked at once)
+var c18OutFile *os.File
+
+func c18Capture(f func()) string {
+	if c18OutFile == nil {
+		if tf, err := os.CreateTemp("", "ivgsim-c18-stdout-*"); err == nil {
+			os.Remove(tf.Name())
+			c18OutFile = tf
+		}
+	}
+	if c18OutFile == nil {
+		f()
+		return ""
+	}
+	_ = c18OutFile.Truncate(0)
+	_, _ = c18OutFile.Seek(0, 0)
+	old := os.Stdout
+	os.Stdout = c18OutFile
+	defer func() { os.Stdout = old }()
+	f()
+	n, _ := c18OutFile.Seek(0, 1)
+	buf := make([]byte, n)
+	_, _ = c18OutFile.ReadAt(buf, 0)
+	return string(buf)
+}
+
+// sortedLines is the multiset of lines of a captured output.
+func sortedLines(outs ...string) []string {
+	var l []string
+	for _, o := range outs {
+		for _, x := range strings.Split(o, "\n") {
+			if x != "" {
+				l = append(l, x)
+			}
+		}
+	}
+	sort.Strings(l)
+	return l
+}
+
 type c18Task struct {
 	name string
 	run  func() string // returns a digest of everything the task produced
@@ -982,17 +1024,21 @@ func c18Run(ctx *Ctx, t *tape.Tape) *report.Violation {
 	// change points are drawn over. The hook only counts.
 	solo := make([]string, k)
 	soloSteps := make([]int, k)
+	var soloPrinted []string
 	for i := range tasks {
 		for rep := 0; rep < 2; rep++ {
 			steps := 0
 			c18Install(func(int) { steps++ })
 			var res string
-			p, _, msg := guard(func() { res = tasks[i].run() })
+			var p bool
+			var msg string
+			printed := c18Capture(func() { p, _, msg = guard(func() { res = tasks[i].run() }) })
 			c18Install(nil)
 			if p {
 				res = "panic: " + msg
 			}
 			if rep == 0 {
+				soloPrinted = append(soloPrinted, printed)
 				solo[i], soloSteps[i] = res, steps
 			} else if res != solo[i] {
 				return fail(viol("C18", "result", "task %d (%s) run alone twice gives different results: %s vs %s", i, tasks[i].name, solo[i], res))
@@ -1088,7 +1134,9 @@ func c18Run(ctx *Ctx, t *tape.Tape) *report.Violation {
 		ranSince = ranSince[:0]
 		return nil
 	}
-	stt, err := sched.Run(fns, dec, c18Install, after, 50*total+100000)
+	var stt sched.Stats
+	var err error
+	schedPrinted := c18Capture(func() { stt, err = sched.Run(fns, dec, c18Install, after, 50*total+100000) })
 	schedTrace := []string{"policy: " + policy, fmt.Sprintf("%d statement steps, %d slices, %d preemptions", stt.Steps, stt.Slices, len(stt.Switches))}
 	for i, sw := range stt.Switches {
 		if i >= 24 {
@@ -1117,6 +1165,30 @@ func c18Run(ctx *Ctx, t *tape.Tape) *report.Violation {
 		}
 		if results[i] != solo[i] {
 			return fail(viol("C18", "result", "task %d (%s) produced a different result under this interleaving than alone: %s vs %s", i, tasks[i].name, results[i], solo[i]), schedTrace...)
+		}
+	}
+	// the lines printed under the interleaving are the lines printed alone (in
+	// any order: whole lines of different pipelines may interleave)
+	if a, b := sortedLines(soloPrinted...), sortedLines(schedPrinted); len(a)+len(b) > 0 {
+		if st != nil {
+			st.Add("cases_with_printed_output_compared", 1)
+		}
+		diffAt := -1
+		for i := 0; i < len(a) || i < len(b); i++ {
+			if i >= len(a) || i >= len(b) || a[i] != b[i] {
+				diffAt = i
+				break
+			}
+		}
+		if diffAt >= 0 {
+			x, y := "<nothing>", "<nothing>"
+			if diffAt < len(a) {
+				x = a[diffAt]
+			}
+			if diffAt < len(b) {
+				y = b[diffAt]
+			}
+			return fail(viol("C18", "result", "what the pipelines printed under this interleaving is not what they print alone (%d vs %d lines; first difference in sorted order: alone %q, interleaved %q): a record was torn or lost", len(a), len(b), x, y), schedTrace...)
 		}
 	}
 	ctx.Fold(fnvAdd(stt.Hash, uint64(stt.Steps)))
